@@ -9,7 +9,7 @@
 EXTENDS Integers, Sequences, TLC, Json, IOUtils
 Trace == ndJsonDeserialize(IOEnv.IN_FILE)
 Laws == {"linear", "signal-and-noise-filtered-alike", "polarisations-independent", "constant-passes-unchanged", "zero-delay-symmetric-pulse",
-         "ndarray-and-container-agree", "result-independent-of-call-history", "complex-envelope-kept"}
+         "ndarray-and-container-agree", "result-independent-of-call-history", "complex-envelope-kept", "explicit-fs-rescales-the-grid"}
 Abs(v) == IF v < 0 THEN -v ELSE v
 Clauses(e) ==
   CASE e.kind = "law" -> IF e.name \notin Laws THEN {"unknown-law"} ELSE IF e.ppt > e.tol_ppt THEN {e.name} ELSE {}
